@@ -88,15 +88,15 @@ def showList (bs : List Backend) : String :=
 
 structure St where
   static : Bool := false
-  table : Table := []
-  final : List Backend := []
+  sst : StaticSt := {}                  -- static storage: table + the common secret seen at startup
+  file : RawCfg := { common := "", ids := "", secs := [] }   -- the file loaded last (what a fresh start reads)
   etcd : EtcdSt := {}
   judge : Judge := {}
 
 def freshTable (st : St) : Table :=
-  if st.static then fresh st.final else (etcdFresh (sortKV st.etcd.infos)).table
+  if st.static then (startStatic st.file).table else (etcdFresh (sortKV st.etcd.infos)).table
 
-def curTable (st : St) : Table := if st.static then st.table else st.etcd.table
+def curTable (st : St) : Table := if st.static then st.sst.table else st.etcd.table
 
 def step (st : St) (op impl : List String) : St × String × String :=
   match parseOp op with
@@ -106,12 +106,11 @@ def step (st : St) (op impl : List String) : St × String × String :=
     let st := { st with judge := j }
     match o with
     | .mode _ => (st, "ok", v)
-    | .load c => let bs := normalise c; ({ st with static := true, table := fresh bs, final := bs }, "ok", v)
+    | .load c => ({ st with static := true, sst := startStatic c, file := c }, "ok", v)
     | .reload c =>
-      let bs := normalise c
-      match reloadRaw? st.table c with
-      | some t => ({ st with static := true, table := t, final := bs }, "ok", v)
-      | none => ({ st with static := true, final := bs }, "panic:model", v)
+      match reloadStatic? st.sst c with
+      | some s => ({ st with static := true, sst := s, file := c }, "ok", v)
+      | none => ({ st with static := true, file := c }, "panic:model", v)
     | .put k i => ({ st with static := false, etcd := etcdPut st.etcd k i }, "ok", v)
     | .del k => ({ st with static := false, etcd := etcdDelete st.etcd k }, "ok", v)
     | .probe p =>
